@@ -487,6 +487,15 @@ def simulate(m, design, ops, seed, idx, pipelined, reset_at=None, decerr=None):
             elif can_issue:
                 if aw_wait is None:
                     aw_wait, w_wait = t["aw_delay"], t["w_delay"]
+                    # the write is in flight from the moment the master starts to present it (not only from the AW
+                    # handshake): a read that is offered or outstanding now, or issued before the B response, is
+                    # concurrent with it and AXI leaves their order open
+                    busy_w[t["addr"]] = busy_w.get(t["addr"], 0) + 1
+                    for pr_ in pending_r:
+                        if abs(pr_["addr"] - t["addr"]) < 4:
+                            pr_["_overlap"] = True
+                    if ri < len(rq) and ar_wait is not None and abs(rq[ri]["addr"] - t["addr"]) < 4:
+                        rq[ri]["_overlap"] = True
                 if not aw_sent and aw_wait == 0:
                     drive.update(axi_awvalid=1, axi_awaddr=t["addr"], axi_awprot=0)
                 if not w_sent and w_wait == 0:
@@ -551,10 +560,6 @@ def simulate(m, design, ops, seed, idx, pipelined, reset_at=None, decerr=None):
             accepted_aw.append(t)
             if pending_b:
                 st["pipelined_writes"] += 1
-            busy_w[t["addr"]] = busy_w.get(t["addr"], 0) + 1
-            for pr_ in pending_r:  # a read of the same address is now concurrent with this write: order unspecified
-                if abs(pr_["addr"] - t["addr"]) < 4:
-                    pr_["_overlap"] = True
         if hs_w:
             st["w_hs"] += 1
             w_sent = True
@@ -607,7 +612,7 @@ def simulate(m, design, ops, seed, idx, pipelined, reset_at=None, decerr=None):
             t = rq[ri]
             st["ar_hs"] += 1
             drive["axi_arvalid"] = 0
-            t = dict(t, _overlap=overlaps(busy_w, t["addr"]), _t_ar=k)
+            t = dict(t, _overlap=overlaps(busy_w, t["addr"]) or t.get("_overlap", False), _t_ar=k)
             pending_r.append(t)
             if (t["addr"] >> 2) not in model.words:
                 st["unmapped"] += 1
@@ -733,7 +738,8 @@ def finding_key(r):
 
 ASSUMPTIONS = [
     "VSIM stands in for a VHDL simulator; the master BFM obeys the protocol itself (valid held until ready, payload stable)",
-    "register model: a write takes effect with its B handshake; a read issued while a write to the same address is in flight is not value-checked (ordering unspecified); "
+    "register model: a write takes effect with its B handshake; a read that is offered or outstanding at any time between the moment the master starts to present a write to the same "
+    "address and that write's B handshake is not value-checked (AXI leaves their order open; a Memory in READBACK mode commits two clocks after it raised BVALID); "
     "unmapped / hole accesses read 0 with OKAY and change nothing; bits of a Register that belong to no field read 0",
     "restricted register-map grammar (MemWord, MemUWord, Register with MemField/MemUField, counter register with PushOnNotify, nested RegFile, Array of MemWord, "
     "Input (read-only view of an entity input at a bit offset) and Output (write-only, drives an entity output) registers, Memory of 2-8 words with the four mask modes / inline or separate access processes / initial contents, AddrRange with an absolute or relative read hook; objects start at any word offset); "
